@@ -143,4 +143,141 @@ def c06(ctx):
                   exhaustive=not ctx.quick)
 
 
-CHECKS = {"C06": c06, "C01": c01, "C02": c02, "C04": c04, "C05": c05}
+BOMBS = [("zinc", "[", "", "]"), ("zinc", "{a:", "1", "}"), ("zinc", "[", "", ""), ("zinc", "{a:", "", ""),
+         ("zinc", "<<\nver:\"3.0\"\na\n", "1", "\n>>"), ("zinc", "<<\nver:\"3.0\"\na\n", "", ""),
+         ("zinc", "ver:\"3.0\" m:[", "", ""), ("zinc", "(", "", ")"), ("zinc", "\"", "", ""), ("zinc", "-", "", ""),
+         ("json", "[", "", "]"), ("json", "{\"a\":", "1", "}"), ("json", "[", "", ""), ("json", "{\"a\":", "", ""),
+         ("json", "{\"_kind\":\"grid\",\"cols\":[],\"rows\":[", "", "]}"),
+         ("json", "{\"_kind\":\"dict\",\"a\":", "null", "}")]
+
+
+def bomb_vectors(fmts, quick):
+    ns = [1, 10, 100, 127, 128, 129, 1000, 10000, 100000]
+    return [{"op": "dec.bomb", "fmt": f, "open": o, "mid": m, "close": c, "n": n} for (f, o, m, c) in BOMBS if f in fmts for n in ns]
+
+
+def texts_of_universe(ctx, depth, styles):
+    vecs = zinc_universe(ctx, depth)
+    out = []
+    for x in vecs:
+        seen = set()
+        for i in styles:
+            t = x["texts"][i]
+            k = json.dumps(t)
+            if k not in seen:
+                seen.add(k)
+                out.append(t)
+    return out
+
+
+def c03(ctx):
+    q = ctx.quick
+    # 1. exhaustive short texts / small JSON trees, with the spec's own readers shown total on them
+    vt, _ = tlc_mc(ctx, "MC_Texts", consts={"MaxLen": 3 if q else 4, "Mode": '"text"', "EmitVectors": "TRUE", "KindFirst": "TRUE"},
+                   invariants=["ReaderTotal", "Emit"], workers=8, timeout=3000)
+    vj, _ = tlc_mc(ctx, "MC_Texts", consts={"MaxLen": 2, "Mode": '"tree"', "EmitVectors": "TRUE", "KindFirst": "TRUE" if q else "FALSE"},
+                   invariants=["ReaderTotal", "Emit"], workers=8, timeout=3000)
+    # 2. prefixes and single edits of the documents the spec writer produces for the small universe
+    docs = texts_of_universe(ctx, 0 if q else 1, [0, 3, 9])
+    muts = [{"op": "dec.zinc.mutants", "text": t, "full": not q} for t in docs]
+    hv = hayson_universe(ctx, 0 if q else 1)
+    jm = [{"op": "dec.json.tree.mutants", "tree": x["trees"][0], "full": not q} for x in hv]
+    # 3. nesting bombs (child process), 4. reader schedules and I/O faults
+    bombs = bomb_vectors({"zinc", "json"}, q)
+    sched_docs = [t for t in texts_of_universe(ctx, 1, [0]) if len(t) <= 24]
+    if q:
+        sched_docs = sched_docs[::6]
+    sched = [{"op": "dec.sched.all", "text": t} for t in sched_docs]
+    ev1 = hs_run(ctx, vt + vj + muts + jm + bombs + sched, "gen")
+    ctx.bads += tlc_trace(ctx, "Trace_Total", ev1, shards=14)
+    note_events(ctx, ev1, key=lambda e: [e.get("text"), e.get("schedule"), e.get("fail_at"), e.get("open"), e.get("n")])
+    # 5. byte-level fuzz and corpus splices
+    n = 30000 if q else 400000
+    ev2 = hs_rec(ctx, "fuzz", n)
+    ctx.bads += tlc_trace(ctx, "Trace_Total", ev2, shards=14)
+    note_events(ctx, ev2, key=lambda e: e.get("text"))
+    return finish(ctx,
+                  "GEN: all texts of length <= %d over a 32-symbol class alphabet (TLC shows the TLA+ reader total on them and the harness "
+                  "runs from_str, Parser::parse_value over a reader and the lazy row iterator); all JSON objects of <= 2 members over the "
+                  "names/values the Hayson visitor inspects; every prefix and single edit (delete/duplicate/replace/insert by class "
+                  "representatives) of the documents the spec writers produce for the depth-%d universe; nesting bombs n in 1..10^5 "
+                  "in a child process; reader schedules (all chunkings of texts <= 10 bytes, 1-byte reads, Interrupted before every "
+                  "byte, I/O error at every offset). REC: %d random byte strings / corpus splices. Outcome monitors: catch_unwind, "
+                  "worker process with time limit (retried once alone), child exit status. distinct = distinct inputs"
+                  % (3 if q else 4, 0 if q else 1, n),
+                  ["a hang is detected as no reply within 3 s (15 s on the retry) for inputs <= 1 KiB", "the watchdog, catch_unwind and "
+                   "exit status are the observation; admissibility (ok|err) is judged by Trace_Total.tla"])
+
+
+def c10(ctx):
+    q = ctx.quick
+    vecs, _ = tlc_mc(ctx, "MC_Constructible", consts={"MaxDepth": 1 if q else 2}, invariants=["Emit"], workers=8, timeout=3000)
+    nests = [{"op": "enc.nest", "form": f, "n": n} for f in ("list", "dict", "grid", "gridmeta", "mixed") for n in (1, 2, 8, 32, 63, 64)]
+    ev1 = hs_run(ctx, vecs + nests, "gen")
+    ctx.bads += tlc_trace(ctx, "Trace_Enc", ev1, shards=12)
+    note_events(ctx, ev1, key=lambda e: [e.get("v"), e.get("form"), e.get("n")])
+    # decoder images: everything a decoder accepts from foreign input is offered to both encoders and Display
+    n = 30000 if q else 300000
+    ev2 = hs_rec(ctx, "fuzz", n)
+    ctx.bads += tlc_trace(ctx, "Trace_Total", ev2, shards=14)
+    note_events(ctx, ev2, key=lambda e: e.get("text"), trivial=lambda e: e.get("reenc", {}).get("display") == "skipped")
+    docs = texts_of_universe(ctx, 0 if q else 1, [0, 9])
+    ev3 = hs_run(ctx, [{"op": "dec.zinc.mutants", "text": t, "full": not q} for t in docs], "mut")
+    ctx.bads += tlc_trace(ctx, "Trace_Total", ev3, shards=14)
+    note_events(ctx, ev3, key=lambda e: e.get("text"), trivial=lambda e: e.get("reenc", {}).get("display") == "skipped")
+    return finish(ctx,
+                  "GEN: MC_Constructible enumerates constructible values (string classes in every String field: empty, upper, digit-first, "
+                  "non-ASCII-first, NUL, quote, newline, backslash; unit-bearing NaN/INF; out-of-range dates; grids without columns, "
+                  "with foreign row keys, duplicate columns, empty-but-present meta) nested to depth %d by the wrap actions, plus values "
+                  "nested 64 deep; each is encoded through to_zinc_string, the ToZinc trait (Value and typed), serde_json "
+                  "to_string/to_vec/to_value (Value and typed), Display and Dict::dis under catch_unwind. Decoder images: every value "
+                  "accepted from %d fuzz inputs and from all single-edit mutants of spec-written documents is offered to both encoders "
+                  "and Display. distinct = distinct values / accepted inputs" % (1 if q else 2, n),
+                  ["panic observation = catch_unwind in the harness; the specification supplies the universe and judges outcome in {ok, err}"])
+
+
+def c11(ctx):
+    q = ctx.quick
+    # stability + reader/buffer equality + iterator rows, on every spelling of the small universe
+    sp = texts_of_universe(ctx, 1 if q else 2, list(range(10)))
+    v1 = [{"op": "dec.zinc", "text": t, "src": "spelling"} for t in sp]
+    hv = hayson_universe(ctx, 1 if q else 2)
+    seen = set()
+    v2 = []
+    for x in hv:
+        for t in x["trees"]:
+            k = json.dumps(t, sort_keys=True)
+            if k not in seen:
+                seen.add(k)
+                v2.append({"op": "dec.json.tree", "tree": t, "src": "spelling"})
+    if q:
+        v2 = v2[::2]
+    files = [{"op": "stab.file", "path": "/repo/benches/zinc/points.zinc", "fmt": "zinc"},
+             {"op": "stab.file", "path": "/repo/tests/defs/defs.zinc", "fmt": "zinc"},
+             {"op": "stab.file", "path": "/repo/benches/json/points.json", "fmt": "json"}]
+    sched_docs = [t for t in texts_of_universe(ctx, 1, [0, 3]) if len(t) <= 24]
+    if q:
+        sched_docs = sched_docs[::4]
+    sched = [{"op": "dec.sched.all", "text": t} for t in sched_docs]
+    big = [{"op": "dec.sched.big", "rows": 300, "seed": ctx.seed + i} for i in range(1 if q else 6)]
+    muts = [{"op": "dec.zinc.mutants", "text": t, "full": not q} for t in texts_of_universe(ctx, 0, [0, 9])]
+    ev1 = hs_run(ctx, v1 + v2 + files + sched + big + muts, "gen")
+    ctx.bads += tlc_trace(ctx, "Trace_Total", ev1, shards=14, per_shard_min=50)
+    note_events(ctx, ev1, key=lambda e: [e.get("text"), e.get("tree"), e.get("schedule"), e.get("fail_at"), e.get("path"), e.get("row")])
+    n = 20000 if q else 200000
+    ev2 = hs_rec(ctx, "fuzz", n)
+    ctx.bads += tlc_trace(ctx, "Trace_Total", ev2, shards=14)
+    note_events(ctx, ev2, key=lambda e: e.get("text"), trivial=lambda e: e.get("reenc", {}).get("display") == "skipped")
+    return finish(ctx,
+                  "stability: every spelling (10 Zinc styles / 7 Hayson styles) of the depth-%d universe, the three corpus files shipped "
+                  "with the repository (row by row), accepted single-edit mutants and accepted fuzz inputs are decoded, re-encoded in the "
+                  "same format and decoded again; TLC requires Same(second, first). stream = buffer: the same texts through "
+                  "Parser::parse_value over a reader and the lazy row iterator must give the from_str value / the grid's rows; reader "
+                  "schedules: all chunkings of texts <= 10 bytes, 1-byte reads, Interrupted before every byte, oversized chunks. "
+                  "laziness: 300-row grids (>12 KB) read under 4 schedules, bytes consumed at each yielded row <= end of the first token "
+                  "after that row + 16 (positions computed by the TLA+ reader). distinct = distinct inputs" % (1 if q else 2),
+                  ["the 16-byte slack covers the lexer's bounded look-ahead for number/date disambiguation; a buffering reader or eager "
+                   "row collection exceeds it by kilobytes on the 300-row grids"])
+
+
+CHECKS = {"C10": c10, "C11": c11, "C03": c03, "C06": c06, "C01": c01, "C02": c02, "C04": c04, "C05": c05}
